@@ -57,6 +57,9 @@ CHECKS = {
  "C19": dict(engine="mirsmt", technique="SMT over sequential encodings generated from the MIR of DebuggingRecorder::{describe_*,register_*,describe_metric,track_metric} and Snapshotter::snapshot with keyed containers of concrete size and symbolic content; the oracle is a reference model of the snapshot; counterexamples replayed through the public API",
     text="three history shapes (ordering / re-registration / described-only / current values; metadata precedence across two descriptions and three kinds sharing a name; histogram values over three snapshots) with symbolic units, descriptions and values: the snapshot equals the reference",
     note="fixed history shapes of <= 7 calls; abstract key identities; registry, atomic bucket, IndexMap/HashMap/Mutex by their contracts; single thread (the thread-locality clause is C01's)", ref="§4 C19"),
+ "C07": dict(engine="mirsmt", technique="SMT over sequential encodings generated from the MIR of Inner::{get_recent_metrics,drain_histograms_to_distributions,run_upkeep} and PrometheusRecorder::add_description_if_missing with keyed containers of concrete size and symbolic content; counterexamples replayed through the public recorder/handle API with render() parsed by an independent strict parser",
+    text="record / render-snapshot / run_upkeep histories on one histogram, counter and gauge with symbolic values: every snapshot's distribution holds exactly the samples recorded so far, each sample is folded exactly once, counter and gauge show the storage value; the first description/unit of a name is kept",
+    note="reduced claim: the conservation chain up to the Snapshot that render() prints (its text is C08's subject); sequential histories only (record-during-render is C05's subject); registry, recency, bucket, maps and locks by their contracts; label merging is checked in C08 (key_to_parts)", ref="§4 C07"),
 }
 NA = {}
 ids = [json.loads(l)["id"] for l in open(os.path.join(V, "properties.jsonl"))]
